@@ -38,6 +38,9 @@ import (
 //       extension register per parent: write = Extend (unique n), read =
 //                        Detect(probe of that parent) -> newest extension in force
 //       name set         add = Extend returned, contains = Lookup != nil
+//       tree snapshot    one goroutine registers children of S0, then a root-level format that
+//                        captures the S probe, then more children: a walk holds the tree lock
+//                        from the root down, so reads must be explained by ONE tree
 // (c) Looked-up values are never half-built: exact type, extension, parent chain,
 //     aliases; the caller's alias backing arrays are never written.
 
@@ -120,6 +123,18 @@ func c06Setup(hist int, env *c06Env, base *lib.Tree) {
 	for _, p := range env.parents {
 		c06Extend(p, hist, 0, nil)
 	}
+	// S0: parent of the snapshot-consistency register (see the "snap" partition)
+	mimetype.Extend(func(raw []byte, _ uint32) bool { return bytes.HasPrefix(raw, []byte("VERIF-S")) }, "application/x-verif-s0", ".s0")
+	c06ExtendS(hist, 0)
+}
+
+// c06ExtendS registers child n of S0.
+func c06ExtendS(hist, n int) {
+	lk := mimetype.Lookup("application/x-verif-s0")
+	lk.Extend(func(raw []byte, _ uint32) bool {
+		runtime.Gosched()
+		return bytes.HasPrefix(raw, []byte("VERIF-S"))
+	}, fmt.Sprintf("application/x-verif-ext-s0-%d-%d", hist, n), ".vs")
 }
 
 func c06Name(hist, n int, parentKey string) string {
@@ -323,6 +338,52 @@ func c06History(c *fw.Ctx, env *c06Env, base *lib.Tree, hist int, hseed int64, p
 			}
 		})
 	}
+	// snapshot writer: children 1..5 of S0, then a ROOT-level format that captures the
+	// S probe (it is in front of S0), then children 6..9 of S0, all from one goroutine.
+	// A walk holds the tree lock from the root down, so it sees one tree: once the
+	// capture exists no detection may still come back with a child of S0 - in
+	// particular not with one registered after the capture.
+	client(15, func(id int, rr *rand.Rand, rec func(c06Op)) {
+		capAt := 3 + rr.Intn(4)
+		for i := 1; i <= 9; i++ {
+			pace(10 + rr.Intn(40))
+			o := c06Op{kind: "extendS", key: "snap", arg: i, call: now()}
+			c06ExtendS(hist, i)
+			o.ret = now()
+			rec(o)
+			if i == capAt {
+				pace(5)
+				oc := c06Op{kind: "capture", key: "snap", call: now()}
+				mimetype.Extend(func(raw []byte, _ uint32) bool { return bytes.HasPrefix(raw, []byte("VERIF-S")) }, fmt.Sprintf("application/x-verif-capture-%d", hist), ".vc")
+				oc.ret = now()
+				rec(oc)
+			}
+		}
+	})
+	for k := 0; k < 3; k++ {
+		client(16+k, func(id int, rr *rand.Rand, rec func(c06Op)) {
+			probeS := []byte("VERIF-S snapshot probe")
+			for i := 0; i < 70; i++ {
+				o := c06Op{kind: "readS", key: "snap", call: now()}
+				var m *mimetype.MIME
+				if i%4 == 0 {
+					m, _ = mimetype.DetectReader(&c06Slow{b: probeS})
+				} else {
+					m = mimetype.Detect(probeS)
+				}
+				o.ret = now()
+				s := m.String()
+				switch {
+				case strings.HasPrefix(s, "application/x-verif-capture-"):
+					o.out = -2
+				default:
+					o.out = c06ParseN(s)
+				}
+				o.outs = lib.ChainOf(m).String()
+				rec(o)
+			}
+		})
+	}
 	// probe-A readers: two per parent (a freshly registered format is detected
 	// for the first time by several goroutines at once), three entry points
 	for pj := 0; pj < 2*len(env.parents); pj++ {
@@ -506,6 +567,52 @@ func c06History(c *fw.Ctx, env *c06Env, base *lib.Tree, hist int, hseed int64, p
 					pops = append(pops, porcupine.Operation{ClientId: o.client, Input: in{"t", 0, o.x}, Call: o.call, Output: o, Return: o.ret})
 				}
 			}
+		case key == "snap":
+			type snapState struct {
+				captured bool
+				k        int
+			}
+			model = porcupine.Model{
+				Init: func() interface{} { return snapState{} },
+				Step: func(st, input, output interface{}) (bool, interface{}) {
+					i := input.(in)
+					ss := st.(snapState)
+					switch i.kind {
+					case "w":
+						ss.k = i.v
+						return true, ss
+					case "c":
+						ss.captured = true
+						return true, ss
+					}
+					want := ss.k
+					if ss.captured {
+						want = -2
+					}
+					return output.(c06Op).out == want, ss
+				},
+				DescribeOperation: func(input, output interface{}) string {
+					i := input.(in)
+					switch i.kind {
+					case "w":
+						return fmt.Sprintf("Extend(child %d of S0)", i.v)
+					case "c":
+						return "Extend(root-level capture)"
+					}
+					return fmt.Sprintf("Detect(S probe) -> %d (%s)", output.(c06Op).out, output.(c06Op).outs)
+				},
+			}
+			for _, o := range ops {
+				switch o.kind {
+				case "extendS":
+					pops = append(pops, porcupine.Operation{ClientId: o.client, Input: in{"w", o.arg, 0}, Call: o.call, Output: o, Return: o.ret})
+				case "capture":
+					pops = append(pops, porcupine.Operation{ClientId: o.client, Input: in{"c", 0, 0}, Call: o.call, Output: o, Return: o.ret})
+				default:
+					pops = append(pops, porcupine.Operation{ClientId: o.client, Input: in{"r", 0, 0}, Call: o.call, Output: o, Return: o.ret})
+					distinctReads["S"+strconv.Itoa(o.out)] = true
+				}
+			}
 		case strings.HasPrefix(key, "ext:"):
 			model = porcupine.Model{
 				Init: func() interface{} { return 0 },
@@ -553,11 +660,11 @@ func c06History(c *fw.Ctx, env *c06Env, base *lib.Tree, hist int, hseed int64, p
 		}
 		// overlap count: writes overlapping reads in real time
 		for _, w := range ops {
-			if w.kind != "setlimit" && w.kind != "extend" && w.kind != "add" {
+			if w.kind != "setlimit" && w.kind != "extend" && w.kind != "add" && w.kind != "extendS" && w.kind != "capture" {
 				continue
 			}
 			for _, rd := range ops {
-				if rd.kind == w.kind || rd.kind == "setlimit" || rd.kind == "extend" || rd.kind == "add" {
+				if rd.kind == w.kind || rd.kind == "setlimit" || rd.kind == "extend" || rd.kind == "add" || rd.kind == "extendS" || rd.kind == "capture" {
 					continue
 				}
 				if rd.call < w.ret && w.call < rd.ret {
@@ -668,7 +775,7 @@ func init() {
 	fw.Register(&fw.Prop{
 		ID:    "C06",
 		Level: "exploration",
-		Rule: "many short gated histories (14 goroutines, ~500 operations each): 2 SetLimit writers with values unique in the history, 3 Extend writers (package level, on text/plain and application/zip looked up by name, on an earlier extension) passing caller-owned alias slices of every shape (nil, exact capacity, spare capacity 1-8 with the caller reading its spare slots concurrently, two slices sharing one backing array), names partly with upper-case letters; readers: Detect / DetectReader through a yielding one-byte reader / DetectFile on probe inputs that reveal the newest extension of each parent and the limit used, ordinary limit-sensitive inputs (6 KiB JSON, CSV, NDJSON, text with a late binary byte, late-deciding GeoJSON), Lookup of names being registered plus accessor calls (String, Extension, Parent, Is) on shared nodes; extension detectors yield while the read lock is held. GOMAXPROCS in {2, 4, 16}. Race batches run under the race detector; all histories are checked with porcupine per partition (limit register incl. sequential table T[x][v], one extension register per parent, one set per name). " +
+		Rule: "many short gated histories (14 goroutines, ~500 operations each): 2 SetLimit writers with values unique in the history, 3 Extend writers (package level, on text/plain and application/zip looked up by name, on an earlier extension) passing caller-owned alias slices of every shape (nil, exact capacity, spare capacity 1-8 with the caller reading its spare slots concurrently, two slices sharing one backing array), names partly with upper-case letters; readers: Detect / DetectReader through a yielding one-byte reader / DetectFile on probe inputs that reveal the newest extension of each parent and the limit used, ordinary limit-sensitive inputs (6 KiB JSON, CSV, NDJSON, text with a late binary byte, late-deciding GeoJSON), Lookup of names being registered plus accessor calls (String, Extension, Parent, Is) on shared nodes; extension detectors yield while the read lock is held. GOMAXPROCS in {2, 4, 16}. Race batches run under the race detector; all histories are checked with porcupine per partition (limit register incl. sequential table T[x][v], one extension register per parent, one set per name, and a two-level snapshot register: children of a sub-format plus a root-level format that captures their probe, written by one goroutine). " +
 			"non-trivial (informative) = at least one write overlapped a read in real time and the readers saw >= 3 distinct values; distinct = distinct (GOMAXPROCS, overlap bucket, number of distinct values read).",
 		Assumptions: []string{
 			"the limit and the tree are read at two instants, so they are checked as independent registers (a single common instant would alarm on correct code)",
